@@ -275,7 +275,21 @@ pub fn check_counts(sc: &Scenario, h: &History, infos: &[SysInfo], ro: &RunOut, 
             after_panic = true;
             continue;
         }
-        for i in infos.iter().filter(|i| i.parent.is_none()) {
+        // systems of a dispatcher registered as a thread-local system run once whenever the
+        // thread-local phase runs
+        for i in infos.iter().filter(|i| i.parent.map(|p| infos[p].container).unwrap_or(false)) {
+            let delta = c.runs_after[i.sid] - prev[i.sid];
+            let want = eligible(c.call, Kind::Tl) as u64;
+            if delta != want {
+                let msg = format!("call #{} ({:?}): system {} ({:?}) of a dispatcher registered as a thread-local system ran {} time(s), expected {}", ci, c.call, i.sid, i.kind, delta, want);
+                out.push(vio("C04", if delta < want { "skipped" } else { "ran-twice" }, msg.clone()));
+                if after_panic {
+                    out.push(vio("C14", "redispatch-incomplete", format!("after a caught panic in an earlier dispatch: {}", msg)));
+                }
+                out.push(vio("C12", "tl-not-run", msg));
+            }
+        }
+        for i in infos.iter().filter(|i| i.parent.is_none() && !i.container) {
             let delta = c.runs_after[i.sid] - prev[i.sid];
             let want = eligible(c.call, i.kind) as u64;
             if delta != want {
@@ -384,6 +398,20 @@ pub fn check_tl(h: &History, infos: &[SysInfo], ev: &[Event], out: &mut Vec<Viol
     // (seq, task, worker) of every top-level call
     let calls: Vec<(u64, u32, bool)> = ev.iter().filter(|e| e.kind == Ev::CallBegin).map(|e| (e.seq, e.task, e.worker)).collect();
     let caller_of = |seq: u64| calls.iter().rev().find(|c| c.0 < seq).map(|c| (c.1, c.2)).unwrap_or((0, false));
+    // a dispatcher registered as a thread-local system: its systems belong to the thread-local
+    // phase of the outer dispatch
+    for o in h.occs.iter().filter(|o| infos[o.sid].parent.map(|p| infos[p].container).unwrap_or(false)) {
+        let top_inst = o.inst / 4096;
+        for x in h.occs.iter().filter(|x| x.inst == top_inst && infos[x.sid].parent.is_none() && x.kind != Kind::Tl) {
+            if !(x.end < o.enter) {
+                out.push(vio(
+                    "C12",
+                    "tl-started-early",
+                    format!("system {} of a dispatcher registered as a thread-local system entered at {} before ordinary system {} of the same dispatch had ended ({})", o.sid, o.enter, x.sid, x.end),
+                ));
+            }
+        }
+    }
     for idx in h.by_inst.values() {
         let tls: Vec<&Occ> = idx.iter().map(|&i| &h.occs[i]).filter(|o| o.kind == Kind::Tl).collect();
         if tls.is_empty() {
@@ -461,7 +489,7 @@ pub fn check_panics(sc: &Scenario, h: &History, infos: &[SysInfo], ro: &RunOut, 
         }
         // run counters: nothing runs more than once per dispatch (top level)
         let prev: Vec<u64> = if ci == 0 { vec![0; infos.len()] } else { ro.calls[ci - 1].runs_after.clone() };
-        for i in infos.iter().filter(|i| i.parent.is_none()) {
+        for i in infos.iter().filter(|i| i.parent.is_none() || i.parent.map(|p| infos[p].container).unwrap_or(false)) {
             let d = c.runs_after[i.sid] - prev[i.sid];
             if d > 1 {
                 out.push(vio("C14", "ran-twice", format!("call #{}: system {} ran {} times", ci, i.sid, d)));
